@@ -46,6 +46,15 @@ generated; the write-ups are `fixes/C08-indus-*.md`):
      batch is in process, and at the end of a finite workload every accepted item must have been completed.
      `_batch_overlap_case` builds the schedules for it: `process_time >= timeout_s > 0`, full batches that keep
      the processor busy, partial batches opening during a process whose timeout falls before / on / after its end.
+  G1 gate: only schedules on which the creation-order semantics of `start_events` (open_1, close_1, open_2, ...; same-instant
+     events handled in that order, every close shuts the gate) agrees with the union of the windows: sorted and
+     non-overlapping, touching and zero-length windows included.  With overlapping windows, or touching windows listed out of
+     order, a close shuts the gate inside another window and arrivals wait there for ever
+     (`indus/gate/strand/closed-inside-open-window`; `fixes/C08-indus-gate-overlapping-windows.{diff,md}`, witness
+     `corpus/C08/pending/gate-touching-windows-out-of-order.json`).  Lift with `G1` in `HV_C08_INDUS_LIFT`.
+The gate judge gets the schedule (header `gate <init> <qcap> <open_ns close_ns>*`) and judges the strand clause against the
+union of its windows: the clock must not advance (and the run must not end) while items wait, the gate is shut and a
+non-empty window meets the stretch — suspended once a programmatic open()/close() (`copen` / `cclose` lines) has happened.
 
 Constructor options varied: pooled `downstream` set / None (`nosink`), `queue_capacity` 0 (unlimited) .. 3, `cycle_time` 0;
 conveyor `capacity` 0 (unlimited) .. 3, `transit_time` 0; gate `queue_capacity` 0 .. 3, empty / zero-length / coinciding
@@ -245,7 +254,7 @@ def run_impl(case):
             def handle_event(self, ev):
                 op = ev.context["metadata"]["op"]
                 out = c.open() if op == "open" else c.close()
-                emit(op, "-")
+                emit("c" + op, "-")
                 return out
 
         box["ctl"] = Ctl("ctl")
@@ -397,7 +406,7 @@ def header(case):
     if comp == "conveyor":
         return f"conveyor {case['cap']}"
     if comp == "gate":
-        return f"gate {1 if case['init_open'] else 0} {case['qcap']}"
+        return f"gate {1 if case['init_open'] else 0} {case['qcap']}" + "".join(f" {a * Q} {b * Q}" for a, b in case["sched"])
     if comp == "batch":
         return f"batch {case['bsize']} {case['timeout'] * Q}" + (" overlap" if case.get("overlap") else "")
     return f"reneging {case['limit']} {_opt(case['qcap'])}" + ("" if case.get("rtarget", True) else " 0")
@@ -468,6 +477,37 @@ def _pooled_safe_hops(case):
             continue
         if cyc == 0 or any(r[0] > a and (r[0] - a) % cyc == 0 for a in ts):
             r[1] = 0
+    return case
+
+
+def _gate_creation_order_ok(sched):
+    """does the creation-order semantics of `start_events` (open_1, close_1, open_2, close_2, ...; same-instant
+    events handled in that order) leave the gate, at the end of every edge instant, open exactly inside the union
+    of the windows?"""
+    evs = sorted((t, 2 * i + k, k) for i, w in enumerate(sched) for k, t in enumerate(w))
+    state, closed_once = None, False
+    for j, (t, _, k) in enumerate(evs):
+        state = (k == 0)
+        if j + 1 < len(evs) and evs[j + 1][0] == t:
+            continue
+        if state != any(a <= t < b for a, b in sched):
+            return False
+    return True
+
+
+def _gate_safe_sched(case):
+    """G1: until fixes/C08-indus-gate-overlapping-windows.diff is in the tree, only schedules on which the code's
+    creation-order semantics agrees with the union of the windows (sorted, non-overlapping; touching and zero-length
+    windows stay)"""
+    if "G1" in LIFT or _gate_creation_order_ok(case["sched"]):
+        return case
+    sched, out, t = sorted(case["sched"]), [], 0
+    for a, b in sched:
+        a = max(a, t)
+        b = max(b, a)
+        out.append([a, b])
+        t = b
+    case["sched"] = out if _gate_creation_order_ok(out) else out[:1]
     return case
 
 
@@ -566,10 +606,15 @@ def generate(rng, i, tier):
             ln = rng.choice([0, 1, 2, 4, 8])
             sched.append([t, t + ln])
             t += ln + rng.choice([0, 1, 4])
-        if sched and rng.random() < 0.15:
-            rng.shuffle(sched)
+        r = rng.random()
+        if sched and r < 0.2:
+            rng.shuffle(sched)                                   # windows listed out of order
+        elif sched and r < 0.4:
+            a, b = rng.choice(sched)                             # an overlapping / nested / duplicated / touching extra window
+            sched.insert(rng.randrange(len(sched) + 1), rng.choice([[a, b], [a + 1, b + 2], [max(0, a - 1), b + 1], [b, b + 2], [max(0, a - 2), a], [a, a]]))
         case = {"family": "indus", "comp": comp, "init_open": rng.random() < 0.4, "qcap": rng.choice([0, 0, 1, 2, 3]),
                 "sched": sched, "sched_first": rng.random() < 0.6}
+        _gate_safe_sched(case)
         edges = [x for iv in sched for x in iv] or [0]
         reqs = []
         for t0 in _arrival_times(rng, n, [1, 2]):
@@ -624,6 +669,8 @@ def normalise(case):
         if case["timeout"] > 0 and case["bsize"] < 2 and "R2" not in LIFT:
             case["bsize"] = 2
         return _batch_space(case)
+    if case["comp"] == "gate":
+        return _gate_safe_sched(case)
     return case
 
 
@@ -706,6 +753,10 @@ THEOREMS: list[str] = [_NS + n for n in [
     "judge_sound_batch_completed_or_buffered",   # any timeout (0 included): every offered id reached the sink or is in the final buffer
     "judge_sound_batch_overdue",         # overlap: no accepted transcript lets the clock pass the flush deadline of a waiting item
     "judge_sound_batch_overdue_idle",    # same with no batch in process instead of overlap
+    "gate_repaired_close_inside_window_ignored",
+    "gate_repaired_open_at_covered_instant",   # repaired model: at an instant inside some window the gate is open after that instant's schedule events in ANY order
+    "gate_current_touching_unsorted_closes",   # witness: current code shut for a whole window when touching windows are listed out of order
+    "judge_sound_gate_window_strand",          # judge accepts a clock advance over waiting items => no non-empty window meets that stretch
 ]]
 PARTIAL_THEOREMS = {
     _NS + "judge_sound_in_service": "soundness of the indus judge is proved for two clauses (concurrency limit, completed at most once); "
@@ -725,7 +776,9 @@ TRUSTED_BASE = [
 ]
 RULE = ("family indus: <=10 tagged items offered to one real PooledCycleResource / ConveyorBelt / GateController / BatchProcessor / "
         "RenegingQueuedResource inside a Simulation (0.25 s grid, bursts on one nanosecond, arrivals on completion instants, 0-3 "
-        "zero-time forwarder hops, pool/capacity/batch sizes 1-4, gate schedules with coinciding edges plus programmatic open()/close() "
+        "zero-time forwarder hops, pool/capacity/batch sizes 1-4, gate schedules with touching / zero-length / coinciding windows (restriction G1: "
+        "out-of-order and overlapping / nested / duplicated windows only once fixes/C08-indus-gate-overlapping-windows.diff is in), judged "
+        "against the union of the windows, plus programmatic open()/close() "
         "from a controller entity, patience 0-2 s, default patience inf/0/.., reneged_target set / None, pooled downstream set / None, "
         "waiting rooms of capacity 0; impatient bursts: more same-instant items than slots with service > patience; batch `overlap` cases: "
         "process_time >= timeout_s > 0, partial batches opening while a full batch is in process with their flush timeout before / on / after its "
